@@ -30,6 +30,16 @@ def check_instance(inst, F, ctx, extra):
             ctx.violation('into-cast', inst, 'Into', 'From<E> for %s impl not found' % inst.repr, construct=GEN_FILE['Into'])
         for im, p in fs:
             check_into(inst, I, ctx, p, 'Into')
+    # the association in the other direction: try_from / TryFrom map exactly the compiler's discriminants back to their variants
+    from props.c01 import check_try_from
+    from rules.shapes import View as _View
+    _V = _View(inst, I, F)
+    tf = I.assoc_fn('try_from')
+    if tf is not None:
+        check_try_from(inst, _V, ctx, I.body(tf['path']), 'try_from', 'Some')
+    if 'TryFrom' in inst.feats:
+        for im, p in I.trait_fn('core::convert::TryFrom', 'try_from'):
+            check_try_from(inst, _V, ctx, I.body(p), 'TryFrom', 'Ok')
     # discriminants re-emitted as literals / variant lists by the iterator constructor (range and table_inline modes)
     if 'iter' in inst.feats:
         from rules import r_iter as R
